@@ -4,7 +4,8 @@ package main
 //
 //	open sync=<0|1> mt=<MemTableSize> vt=<ValueThreshold> vf=<ValueLogFileSize>
 //	txn <ent> <ent> ...        one update transaction (Txn API), committed; entries
-//	                           ent = k<id>=<len>[e]:<est>:<plen>:<vlen>   set, value of <len> bytes ('e' = far-future expiry)
+//	                           ent = k<id>=<len>[e|p]:<est>:<plen>:<vlen> set, value of <len> bytes ('e' = far-future expiry,
+//	                                                                      'p' = expiry already elapsed when written)
 //	                           ent = k<id>=del:<est>:<plen>:0               delete marker
 //	                           <est>  = kv.EstimateEncodeSize of the entry as handed to lsm.SetBatch
 //	                           <plen> = len(kv.EncodeEntry) of that entry (WAL payload)
@@ -24,7 +25,7 @@ import (
 type entSpec struct {
 	Key  int
 	Len  int // -1 = delete
-	Exp  bool
+	Exp  int // 0 none, 1 far future ('e'), 2 already elapsed ('p': ExpiresAt = 1)
 	Est  int
 	Plen int
 	Vlen int
@@ -45,6 +46,33 @@ type opSpec struct {
 }
 
 const farExpiry = uint64(4102444800) // 2100-01-01, never reached by wall clock
+const pastExpiry = uint64(1)         // elapsed long before the write: no wall-clock dependence
+
+func expiryOf(mode int) uint64 {
+	switch mode {
+	case 1:
+		return farExpiry
+	case 2:
+		return pastExpiry
+	}
+	return 0
+}
+
+// lineOfValue recovers the workload line that wrote a value from its self-describing pattern "<line.key>...".
+func lineOfValue(v []byte) int {
+	if len(v) < 2 || v[0] != '<' {
+		return -1
+	}
+	n, i := 0, 1
+	for i < len(v) && v[i] >= '0' && v[i] <= '9' {
+		n = n*10 + int(v[i]-'0')
+		i++
+	}
+	if i == 1 || i >= len(v) || v[i] != '.' {
+		return -1 // short values may cut the pattern: not decidable from the value alone
+	}
+	return n
+}
 
 func parseOp(line string) (opSpec, error) {
 	f := strings.Fields(line)
@@ -98,8 +126,11 @@ func parseOp(line string) (opSpec, error) {
 				es.Len = -1
 			} else {
 				if strings.HasSuffix(v, "e") {
-					es.Exp = true
+					es.Exp = 1
 					v = strings.TrimSuffix(v, "e")
+				} else if strings.HasSuffix(v, "p") {
+					es.Exp = 2
+					v = strings.TrimSuffix(v, "p")
 				}
 				if es.Len, err = strconv.Atoi(v); err != nil {
 					return o, err
